@@ -284,5 +284,20 @@ pub fn bed(p: &TextParams) -> LinesModel {
         }
         lines.push(l);
     }
-    finish_lines(lines, p.crlf)
+    // comment lines (skipped by the reader) before some records, sometimes two in a row, sometimes
+    // empty ("#" alone): the text has them, the record list does not
+    let mut all = Vec::new();
+    for l in &lines {
+        while rng.chance(1, 4) {
+            all.push(match rng.below(3) {
+                0 => "#".to_string(),
+                1 => format!("#{}", word(&mut rng, 12)),
+                _ => format!("# {}\t{}", word(&mut rng, 5), rng.below(1000)),
+            });
+        }
+        all.push(l.clone());
+    }
+    let mut m = finish_lines(all, p.crlf);
+    m.lines = lines;
+    m
 }
